@@ -170,7 +170,12 @@ impl<'a> Run<'a> {
 
     /// rewind; `fork`: the chain above the height the wallet settled on is then replaced
     pub fn trunc(&mut self, req: u32, fork: bool) -> Option<u32> {
-        let res = self.w.truncate(req);
+        self.trunc_with(req, fork, false)
+    }
+
+    /// `cs`: use truncate_to_chain_state (precise, the caller supplies the tree state) instead of truncate_to_height
+    pub fn trunc_with(&mut self, req: u32, fork: bool, cs: bool) -> Option<u32> {
+        let res = if cs { self.w.truncate_cs(&self.chain, req) } else { self.w.truncate(req) };
         let (c, e) = res_class(&res);
         let to_abs = match &res { Ok(Ok(h)) => Some(*h), _ => None };
         let fork = fork && to_abs.is_some();
@@ -187,7 +192,7 @@ impl<'a> Run<'a> {
             self.chain.truncate(to_abs);
         }
         let post = self.post();
-        self.out.emit(&json!({"a": "trunc", "req": self.w.rel(req), "res": c, "err": e,
+        self.out.emit(&json!({"a": "trunc", "cs": cs, "req": self.w.rel(req), "res": c, "err": e,
                               "to": to_abs.map(|h| self.w.rel(h)).unwrap_or(-1), "fork": fork, "post": post}));
         self.aborted |= c == "panic";
         to_abs
@@ -432,7 +437,8 @@ impl<'a> Run<'a> {
                     self.rng.gen_range(self.chain.base + 1..=top)
                 };
                 let fork = self.rng.gen_bool(0.7);
-                if let Some(to) = self.trunc(req, fork) {
+                let cs = self.rng.gen_bool(0.2);
+                if let Some(to) = self.trunc_with(req, fork, cs) {
                     last_from = last_from.min(to + 1);
                 }
             }
